@@ -1673,3 +1673,23 @@ func condOnPath(path []*ssa.BasicBlock, c CondM) (sawTrue, sawFalse bool) {
 	}
 	return
 }
+
+// vLocalCopyOf: v is inner itself, or a local variable (not escaping) every store to which is a value
+// matching inner (a struct element copied into a local: e := s.Elements[0]; the range variable of a loop).
+func vLocalCopyOf(inner VM) VM {
+	var m VM
+	m = func(v ssa.Value) bool {
+		v = strip(v)
+		if al, ok := v.(*ssa.Alloc); ok && !al.Heap {
+			sts := cellStores(al, 0)
+			for _, st := range sts {
+				if _, isAl := strip(st.Val).(*ssa.Alloc); isAl || !m(st.Val) {
+					return false
+				}
+			}
+			return len(sts) > 0
+		}
+		return inner(v)
+	}
+	return m
+}
